@@ -11,6 +11,9 @@
 (*         "grow"    a growing sink (Vec<u8>, socket/pipe): data = content *)
 (*         "cur_src" Cursor<impl AsRef<[u8]>>: data, pos (may exceed len)  *)
 (*         "cur_sink" Cursor<&mut [u8]>: data (fixed), pos                 *)
+(*         "chunked" a socket whose peer sends the data in separate chunks *)
+(*                   with pauses (short reads): only the exact read is     *)
+(*                   timing independent and specified                      *)
 (*         "file"    File / OwnedFd / BorrowedFd: data = file contents,    *)
 (*                   pos = file offset (reads and writes)                  *)
 (* A read lands its bytes at the start of a buffer of `bl` bytes whose     *)
@@ -32,16 +35,16 @@ Sub(d, at, n) == SubSeq(d, at + 1, at + n)
 Put(d, at, buf, n) == SubSeq(d, 1, at) \o SubSeq(buf, 1, n) \o SubSeq(d, at + n + 1, Len(d))
 Fills(n) == [i \in 1 .. n |-> FILL]
 
-Readable(c) == c \in {"src", "cur_src", "file"}
+Readable(c) == c \in {"src", "cur_src", "file", "chunked"}
 Writable(c) == c \in {"sink", "grow", "cur_sink", "file"}
 
 \* where the next read starts and how much is available
-RdAt(s)  == IF s.cls = "src" THEN 0 ELSE Min(s.pos, Len(s.data))
+RdAt(s)  == IF s.cls \in {"src", "chunked"} THEN 0 ELSE Min(s.pos, Len(s.data))
 Avail(s) == Len(s.data) - RdAt(s)
 \* capacity left for a bounded sink
 Room(s)  == Len(s.data) - Min(s.pos, Len(s.data))
 
-AfterRead(s, n) == IF s.cls = "src" THEN [s EXCEPT !.data = SubSeq(s.data, n + 1, Len(s.data))]
+AfterRead(s, n) == IF s.cls \in {"src", "chunked"} THEN [s EXCEPT !.data = SubSeq(s.data, n + 1, Len(s.data))]
                    ELSE [s EXCEPT !.pos = s.pos + n]
 
 Res(s, r) == [st |-> s, r |-> r]
@@ -62,7 +65,7 @@ DoWrite(s, a) ==
 
 Apply(s, op, a) ==
   CASE op = "read" ->
-         IF ~Readable(s.cls) THEN Res(s, Skip)
+         IF ~Readable(s.cls) \/ s.cls = "chunked" THEN Res(s, Skip)      \* (a single read of a chunked source is timing dependent)
          ELSE LET n == Min(a.bl, Avail(s)) IN
               Res(AfterRead(s, n), [k |-> "ok", n |-> n, buf |-> Sub(s.data, RdAt(s), n) \o Fills(a.bl - n)])
     [] op = "read_exact" ->
